@@ -144,7 +144,9 @@ def strategy():
                                                           'NameError', 'UnicodeError', 'AssertionError', 'ZeroDivisionError']),
                                   'msg': msg, 'depth': st.integers(1, 6), 'source': st.booleans(), 'fname': st.integers(0, len(FNAMES) - 1),
                                   'mangle': st.sampled_from(['none', 'none', 'none', 'truncate-head', 'truncate-tail', 'double', 'prefix-junk',
-                                                             'crlf', 'trailing-blank', 'leading-blank'])})
+                                                             'crlf', 'trailing-blank', 'leading-blank',
+                                                             # a last line whose "type" part is template syntax, balanced or not
+                                                             'tpl-open', 'tpl-cond', 'tpl-close', 'tpl-ref'])})
     syn = st.fixed_dictionaries({'kind': st.just('syntax'), 'code': st.sampled_from(['x = (', 'def f(:\n  pass', 'a b', 'if x\n  y', '"unterminated',
                                                                                      'x = <zq9q>', '  indent\nx']),
                                  'header': st.booleans()})
@@ -198,6 +200,9 @@ def materialise(spec):
             tb = tb + '\n\n'
         elif m == 'leading-blank':
             tb = '\n\n' + tb
+        elif m.startswith('tpl-'):
+            tb = tb + {'tpl-open': '{#zq9items}: <li>{name}</li>', 'tpl-cond': '{?zq9user}hello{:else}anonymous{/zq9user}: x',
+                       'tpl-close': '{/zq9x}: y', 'tpl-ref': '{zq9t|s}{>zq9p/}: {@eq key=a value=b}z{/eq}'}[m] + '\n'
         standard = m in ('none', 'crlf', 'leading-blank', 'double')
         return tb, standard
     if k == 'syntax':
